@@ -152,7 +152,7 @@ def build():
     u = Unit('fquery', ['C07'])
     u.rlimit = 150
     u.assume('fold_one_phase and reconstruct_evals meet the contracts proved for them in units fold / fri (stubs generated from the same contract text / copied from unit fold)')
-    u.assume('verify_batch_circuit_from_extension_opened{,_arity4}: ASSUMED contract -- Ok means `sat` gains exactly the native MMCS acceptance of (cap, dimensions, index bits, rows, salts); commitment_cap_rows_from_lifted returns the packed cap of the lifted commitment (unit mbind covers the base-field variant)')
+    u.assume('verify_batch_circuit_from_extension_opened{,_arity4}: ASSUMED contract -- Ok means `sat` gains exactly the native MMCS acceptance of (cap, dimensions, index bits, rows, salts); commitment_cap_rows_from_lifted returns the packed cap of the lifted commitment; the arity-2 variant is under contract in unit vbatchx (there: the explicit level-digest / path / cap relation that `mmcs_opens` abbreviates here), the arity-4 variant is not')
     u.assume('R13 slice: the loop state (current_folded, bits_consumed, log_current_height) enters as parameters and leaves as the Ok value; `continue` = return of that state; everything before the loop (validation, open_input, roll-ins, final point) and the final connect are outside this unit (units shape, openin, fchain, fri)')
     u.text(open(os.path.join(HERE, 'gadget_prelude.rs')).read())
     u.text(FRI_SPEC)
